@@ -59,6 +59,8 @@ var c19Pool = []string{
 	`strict $.big[*].x`, `strict $.big[*].x ? (@ > 100)`, `strict $.big[0 to 7].x ? (@ > 100)`, `strict $.a[*] ? (@ > 100)`, `strict $.big[*].x.double()`, `$.big[*].x ? (@ > 6)`, `$vf + $vi`, `$vn.string()`, `$arr[0] + $vn`,
 	`$.i == 1`, `$.a[*] > 1`, `exists($.a ? (@ > 2))`, `($.i == "x") is unknown`, `$.i == 1 && $.f > 1`, `!($.s == "x")`, `$.x.y.z`, `$.a.b.c`, `$.a[*].foo`, `$.list[1 to last].x`, `$.list[*].t.date().string()`,
 	// precisions above 6 (capped, with whatever bookkeeping goes with that), a key that is missing next to its case variants
+	// a variable inside what follows another variable (a filter on it, its subscript)
+	`$arr ? (@ > $v)`, `$arr[$vi]`, `$obj.b ? (@ < $arr[1])`, `$arr[*] ? (@ == $v || @ > $vf)`, `$obj.b[$arr[0]]`, `strict $arr[*] ? (@.a == $arr[2].a).a`,
 	`$.tsz.timestamp_tz(7).string()`, `$.tm.time(9).string()`, `$.ts.timestamp(8)`, `$.tmz.time_tz(7)`, `strict $.key`, `strict $.list[*].X`, `strict $.kv.A`,
 }
 
@@ -653,9 +655,17 @@ func c19RejectedParses(c *h.Ctx, n int) {
 					return
 				}
 				if k%16 == 0 {
-					if _, err := path.Parse(c19Pool[(k/16+g)%len(c19Pool)]); err != nil {
+					pi := (k/16 + g) % len(c19Pool)
+					pp, err := path.Parse(c19Pool[pi])
+					if err != nil {
 						mu.Lock()
 						diffs = append(diffs, "concurrent Parse of a pool text failed: "+err.Error())
+						mu.Unlock()
+						return
+					}
+					if got := fmt.Sprint(pp.IsPredicate(), " ", pp.PgIndexOperator(), " ", pp.String()); c19PoolKind != nil && got != c19PoolKind[pi] {
+						mu.Lock()
+						diffs = append(diffs, fmt.Sprintf("Parse(%q) next to rejected parses gives (IsPredicate, operator, text) = %s; parsed first in this process: %s", c19Pool[pi], got, c19PoolKind[pi]))
 						mu.Unlock()
 						return
 					}
@@ -724,9 +734,19 @@ func parsePool() ([]*path.Path, []bool) {
 			panic("harness: pool path does not parse: " + t + ": " + err.Error())
 		}
 		paths[i] = p
+		if c19PoolKind == nil {
+			c19PoolKind = make([]string, len(c19Pool))
+		}
+		if c19PoolKind[i] == "" {
+			// (the first parse of the text in this process, before any text was rejected)
+			c19PoolKind[i] = fmt.Sprint(p.IsPredicate(), " ", p.PgIndexOperator(), " ", p.String())
+		}
 	}
 	return paths, exposed
 }
+
+// c19PoolKind: what the first Parse of each pool text reported about it.
+var c19PoolKind []string
 
 func runC19(c *h.Ctx) {
 	// shard parameters
